@@ -10,10 +10,11 @@ import json, os, re, resource, shutil, subprocess, sys, time, glob, hashlib
 from concurrent.futures import ThreadPoolExecutor
 
 VERIF = os.path.dirname(os.path.dirname(os.path.abspath(__file__)))
-HARNESS = os.path.join(VERIF, "harness")
+HARNESS = os.environ.get("VERIF_HARNESS_DIR") or os.path.join(VERIF, "harness")
 WORK = os.path.join(VERIF, ".work")
 REPO = "/repo"
-KANI_LIB_C = os.path.expanduser("~/.kani/kani-0.68.0/library/kani/kani_lib.c")
+KANI_LIB_C = os.path.join(VERIF, "lib", "cmodel", "kani_lib.c")  # Kani's C model with a loop-copy realloc
+REALLOC_UNWIND = 132  # default bound of the copy loops in the realloc model (units copied + 1); per-obligation override 'realloc_unwind'
 GUARD_FEATURE = "verif-hooks"  # cargo feature of /repo enabled by harness/Cargo.toml
 
 ENV = dict(os.environ)
@@ -36,6 +37,8 @@ def sh(cmd, **kw):
 
 def target_dir(features):
     tag = "-".join(sorted(features)) if features else "default"
+    if os.environ.get("VERIF_HARNESS_DIR"):
+        tag += "-dev"
     return os.path.join(WORK, "target-" + tag)
 
 
@@ -162,8 +165,13 @@ def run_cbmc(ob, meta, rundir):
     unwind = ob.get("unwind") or meta["attributes"].get("unwind_value")
     flags = list(CBMC_NOMEM if ob.get("checks") == "nomem" else CBMC_DEFAULT)
     flags += ["--object-bits", str(ob.get("object_bits", 16))]
+    # arrays up to this many elements get per-element SSA symbols, so values stored in the allocator's
+    # (2 KiB) vectors and read back are constant-propagated by symex instead of staying symbolic
+    flags += ["--max-field-sensitivity-array-size", str(ob.get("fs_array", 64))]
     if unwind:
         flags += ["--unwind", str(unwind)]
+    ru = ob.get("realloc_unwind", REALLOC_UNWIND)
+    uwset = [f"__rust_realloc.{i}:{ru}" for i in (3, 4, 5)]
     if ob.get("unwindset"):
         loops = show_loops(goto)
         uw, used = resolve_unwindset(ob["unwindset"], loops)
@@ -174,9 +182,27 @@ def run_cbmc(ob, meta, rundir):
             res["status"] = "BROKEN"
             return res
         if uw:
-            flags += ["--unwindset", uw]
+            uwset.append(uw)
+    flags += ["--unwindset", ",".join(uwset)]
     flags += ["--sat-solver", ob.get("solver", "cadical"), "--slice-formula", goto, "--verbosity", "9", "--json-ui"]
     res["cbmc_flags"] = " ".join(f for f in flags if f != goto)
+    # verdict cache: the verdict is a function of the linked goto binary (regenerated from /repo's current
+    # source by the codegen step of this run) and the CBMC flags; an identical binary + flags was already decided
+    ckey = hashlib.sha256(open(goto, "rb").read() + res["cbmc_flags"].encode()).hexdigest()
+    cpath = os.path.join(WORK, "cache", ckey + ".json")
+    res["goto_sha256"] = ckey[:16]
+    if os.environ.get("VERIF_NO_CACHE") != "1" and os.path.exists(cpath):
+        try:
+            cached = json.load(open(cpath))
+            cached["cached"] = True
+            cached["harness"] = ob["harness"]
+            cached["goto"] = goto
+            cached["flags_list"] = [f for f in flags if f not in ("--json-ui",)]
+            if not ob.get("keep") and cached.get("status") != "FAILED":
+                os.remove(goto)
+            return cached
+        except Exception:
+            pass
     jpath = os.path.join(rundir, "cbmc.json")
     timeout = ob.get("timeout", 600)
     with open(jpath, "w") as jf:
@@ -238,6 +264,7 @@ def run_cbmc(ob, meta, rundir):
     funcs = set()
     nchecks = 0
     failed, covers, unwind_fail, unsupported = [], {}, [], []
+    solver_error = False
     for r in results:
         prop = r["property"]
         parts = prop.rsplit(".", 2)
@@ -256,7 +283,7 @@ def run_cbmc(ob, meta, rundir):
         nchecks += 1
         if status == "FAILURE":
             loc = r.get("sourceLocation", {})
-            item = {"class": cls, "label": desc.strip('"'), "function": fn,
+            item = {"class": cls, "label": desc.strip('"'), "function": fn, "property": prop,
                     "file": loc.get("file", ""), "line": loc.get("line", "")}
             if cls == "unwind" or "unwinding assertion" in desc or "recursion unwinding" in desc:
                 unwind_fail.append(item)
@@ -264,6 +291,8 @@ def run_cbmc(ob, meta, rundir):
                 unsupported.append(item)
             else:
                 failed.append(item)
+        elif status == "ERROR":
+            solver_error = True
         elif status not in ("SUCCESS",):
             failed.append({"class": cls, "label": f"status {status}: " + desc, "function": fn})
     res["checks"] = nchecks
@@ -271,7 +300,10 @@ def run_cbmc(ob, meta, rundir):
     res["function_names"] = sorted(f for f in funcs if f.startswith("clvmr::") or f.startswith("<clvmr"))[:60]
     res["covers"] = covers
     res["failed"] = failed
-    if unwind_fail:
+    if solver_error:
+        res["status"] = "ERROR"
+        res["detail"] = "CBMC reported status ERROR for its properties (solver ran out of memory or crashed): undecided"
+    elif unwind_fail:
         res["status"] = "BROKEN"
         res["detail"] = "unwinding assertion failed (bound too small): " + \
             "; ".join(f"{u['function']}:{u.get('line','')}" for u in unwind_fail[:6])
@@ -286,12 +318,111 @@ def run_cbmc(ob, meta, rundir):
             "; ".join(k for k, v in covers.items() if not v)
     else:
         res["status"] = "OK"
-    if not ob.get("keep"):
+    if res["status"] in ("OK", "FAILED"):
+        try:
+            os.makedirs(os.path.join(WORK, "cache"), exist_ok=True)
+            json.dump(res, open(cpath, "w"))
+        except Exception:
+            pass
+    res["goto"] = goto
+    res["flags_list"] = [f for f in flags if f not in ("--json-ui",)]
+    if not ob.get("keep") and res["status"] != "FAILED":
         try:
             os.remove(goto)
         except OSError:
             pass
     return res
+
+
+_TSIZE = {"u8": 1, "i8": 1, "bool": 1, "u16": 2, "i16": 2, "u32": 4, "i32": 4, "char": 4, "u64": 8, "i64": 8,
+          "usize": 8, "isize": 8, "u128": 16, "i128": 16}
+
+
+def _values_from_trace(trace):
+    """values returned by kani::any_raw_internal::<T> / kani::any_raw_array::<T, N> in call order; bytes that
+    the slicer removed from the formula (they do not influence the failure) are zero"""
+    vals = []
+    pending = None  # [display_name, elem_size, [ints]]
+    for st in trace:
+        t = st.get("stepType")
+        if t == "function-call":
+            dn = st.get("function", {}).get("displayName", "")
+            m = re.match(r"kani::any_raw_internal::<(\w+)>$", dn)
+            m2 = re.match(r"kani::any_raw_array::<(\w+), (\d+)>$", dn)
+            if m or m2:
+                ty = (m or m2).group(1)
+                if ty not in _TSIZE:
+                    return None, f"unsupported nondet type {dn}"
+                pending = [dn, _TSIZE[ty], [0] * (int(m2.group(2)) if m2 else 1)]
+            elif dn.startswith("kani::any_raw_"):
+                return None, f"unsupported nondet source {dn}"
+        elif t == "function-return" and pending and st.get("function", {}).get("displayName", "") == pending[0]:
+            for n in pending[2]:
+                vals.append([(n >> (8 * i)) & 0xff for i in range(pending[1])])
+            pending = None
+        elif t == "assignment" and pending:
+            fn = st.get("sourceLocation", {}).get("function", "")
+            lhs = st.get("lhs", "") or ""
+            if fn != pending[0] or not lhs.startswith("goto_symex$$return_value"):
+                continue
+            val = st.get("value", {})
+            me = re.search(r"\[(\d+)\]$", lhs)
+            if "elements" in val:
+                for e in val["elements"]:
+                    b = e.get("value", {}).get("binary")
+                    if b is not None and e.get("index", 0) < len(pending[2]):
+                        pending[2][e["index"]] = int(b, 2)
+            elif me and val.get("binary") is not None:
+                if int(me.group(1)) < len(pending[2]):
+                    pending[2][int(me.group(1))] = int(val["binary"], 2)
+            elif val.get("binary") is not None and len(pending[2]) == 1:
+                pending[2][0] = int(val["binary"], 2)
+    return vals, ""
+
+
+def trace_values(res, prop_names, timeout=1800, mem_gb=14):
+    """Re-run CBMC on the kept goto binary for the failing properties only, with --trace, and read the
+    values returned by kani::any_raw_* in execution order (what Kani's concrete playback does).
+    returns [{label, values:[[bytes]], property}]"""
+    goto = res.get("goto")
+    if not goto or not os.path.exists(goto):
+        return None, "goto binary not kept"
+    out = []
+    base = [f for f in res["flags_list"] if f != goto]
+    for pn, label in prop_names:
+        cmd = ["cbmc"] + base + ["--property", pn, "--trace", "--json-ui", goto]
+        jpath = goto + ".trace.json"
+        try:
+            with open(jpath, "w") as jf:
+                p = subprocess.Popen(cmd, stdout=jf, stderr=subprocess.DEVNULL, preexec_fn=_limit(mem_gb))
+                try:
+                    p.wait(timeout=timeout)
+                except subprocess.TimeoutExpired:
+                    try:
+                        os.killpg(p.pid, 9)
+                    except Exception:
+                        p.kill()
+                    p.wait()
+                    return None, "trace run timed out"
+            msgs = json.load(open(jpath))
+        except Exception as e:
+            return None, f"trace run failed: {e}"
+        vals = None
+        for m in msgs:
+            for r in m.get("result", []) if isinstance(m, dict) else []:
+                if r.get("status") == "FAILURE" and r.get("property") == pn and "trace" in r:
+                    vals, err = _values_from_trace(r["trace"])
+                    if vals is None:
+                        return None, err
+        try:
+            os.remove(jpath)
+        except OSError:
+            pass
+        if vals is not None:
+            out.append({"label": label, "property": pn, "values": vals, "test": json.dumps(vals)})
+    if not out:
+        return None, "no failing trace found"
+    return out, ""
 
 
 def concrete_values(harness, features, timeout):
